@@ -408,8 +408,10 @@ def _statistics(chk, ctx) -> None:
         for loop in [n for n in ast.walk(fi.node) if isinstance(n, ast.For) and 'zip' in ast.unparse(n.iter)]:
             names = [x.id for x in ast.walk(loop.target) if isinstance(x, ast.Name)]
             z = T.norm(loop.iter)
-            for k in [n for n in ast.walk(loop) if isinstance(n, ast.keyword) and n.arg == 'payoffs']:
-                v = T.norm(k.value)
+            made = [n.value for n in ast.walk(loop) if isinstance(n, ast.keyword) and n.arg == 'payoffs'] + \
+                [n.args[0] for n in ast.walk(loop) if isinstance(n, ast.Call) and isinstance(n.func, ast.Name) and n.func.id == 'Statistics' and n.args]
+            for kv in made:
+                v = T.norm(kv)
                 # [finishing - starting] where starting iterates hh.starting_stacks and finishing the finishing stacks
                 if v[0] == 'list' and len(v[1]) == 1 and v[1][0][0] == 'lin':
                     d = dict(v[1][0][1])
